@@ -327,129 +327,113 @@ def tab2_print(units, R):
 # ---- TAB5b/c printer escape tables ----------------------------------------------------------------------------------------------------
 
 def tab5bc(units, R):
-    from .parse import _switch_arms, RFC8259_ESCAPES
+    """TAB5b/TAB5c: what print_string_ptr reserves and writes for every byte value 1..255.  Both loops of the function are
+    followed path by path with the set of values the byte under the cursor can have (rules/bytepath.py); for each byte
+    value the text the emitting pass writes is expanded (letters, the formatted \\uXXXX text) and compared with what the
+    counting pass adds, with RFC 8259 section 7 and with the parser's escape table."""
+    from .parse import RFC8259_ESCAPES
+    from . import bytepath as bp
     u = units['cJSON.c']
     fn = u.fn('print_string_ptr')
-    sws = [s for s in fn.nodes() if s.get('k') == 'switch']
-    if len(sws) != 2:
-        raise AnalysisBroken('TAB5b: print_string_ptr should have a counting and an emitting switch, found %d' % len(sws))
-    count_sw, emit_sw = sws
-    # counting switch: label -> extra bytes
-    count = {}
-    count_default = None
-    for (labels, stmts) in _switch_arms(count_sw):
-        extra = 0
-        dflt_cond = None
-        for s in stmts:
-            for x in walk(s):
-                if x.get('k') == 'un' and x['op'] in ('post++', 'pre++'):
-                    extra += 1
-                if x.get('k') == 'bin' and x['op'] == '+=' and const_val(x['r']) is not None:
-                    extra += const_val(x['r'])
-                if x.get('k') == 'if':
-                    dflt_cond = cmp_parts(x['c'])
-        for lb in labels:
-            if lb == 'default':
-                count_default = (extra, dflt_cond)
+    ex = bp.explore(u, fn)
+    heads = sorted(ex.heads)
+    counting, emitting = None, None
+    for h in heads:
+        segs = [sg for sg in bp.loop_segments(ex, h) if sg.end == ('head', h)]
+        if not segs:
+            continue
+        if any(sg.writes for sg in segs):
+            emitting = emitting if emitting is not None else h
+        elif any(v is not None and v[0] == 'd' and v[1] != 0 for sg in segs for v in sg.vals.values()):
+            counting = counting if counting is not None else h
+    if counting is None or emitting is None:
+        raise AnalysisBroken('TAB5b: print_string_ptr: counting and emitting loops not found (loop heads %s)' % heads)
+    csegs = [sg for sg in bp.loop_segments(ex, counting) if sg.end == ('head', counting)]
+    esegs = [sg for sg in bp.loop_segments(ex, emitting) if sg.end == ('head', emitting)]
+    cin = bp.reading_cursors(csegs)
+    ein = bp.reading_cursors(esegs)
+    eout = bp.writing_cursors(esegs)
+    if len(cin) != 1 or len(ein) != 1 or len(eout) != 1:
+        raise AnalysisBroken('TAB5b: print_string_ptr: cursors of the two loops not identified (%s / %s -> %s)' % (sorted(cin), sorted(ein), sorted(eout)))
+    cin, ein, eout = next(iter(cin)), next(iter(ein)), next(iter(eout))
+    counters = {n for sg in csegs for n, v in sg.vals.items() if v is not None and v[0] == 'd' and v[1] != 0}
+    if len(counters) != 1:
+        raise AnalysisBroken('TAB5b: print_string_ptr: the counting loop changes %s' % sorted(counters))
+    counter = next(iter(counters))
+    counted, text_of = {}, {}
+    for b in range(1, 256):
+        cs = [sg for sg in csegs if b in sg.bytes_at(cin)]
+        es = [sg for sg in esegs if b in sg.bytes_at(ein)]
+        if not cs or not es:
+            raise AnalysisBroken('TAB5b: print_string_ptr: byte %d leaves the %s loop' % (b, 'counting' if not cs else 'emitting'))
+        cv = set()
+        for sg in cs:
+            v = sg.vals.get(counter)
+            cv.add(v[1] if (v is not None and v[0] == 'd' and sg.adv(cin) == 1) else None)
+        counted[b] = cv
+        tv = set()
+        for sg in es:
+            text = bp.expand_text(sg.writes_through(eout), 0, lambda p, b=b: b)
+            n = sg.adv(eout)
+            if text is None or n is None or sg.adv(ein) != 1 or not all(i in text for i in range(n)) or \
+                    any(i > n or (i == n and text[i] != 0) for i in text):
+                tv.add(None)       # cursor and bytes written disagree, or the text is not known
             else:
-                count[lb] = extra
-    # emitting switch: label -> letter ; default: sprintf format + advance
-    emit = {}
-    emit_default = None
-    for (labels, stmts) in _switch_arms(emit_sw):
-        letter = None
-        fmt = None
-        adv = 0
-        for s in stmts:
-            for x in walk(s):
-                if x.get('k') == 'bin' and x['op'] == '=' and const_val(x['r']) is not None and strip_casts(x['l']).get('k') == 'un':
-                    letter = const_val(x['r'])
-                if x.get('k') == 'call' and callee_name(x) == 'sprintf':
-                    f = strip_casts(x['args'][1])
-                    if f.get('k') == 'str':
-                        fmt = f['bytes']
-                if x.get('k') == 'bin' and x['op'] == '+=' and const_val(x['r']) is not None:
-                    adv += const_val(x['r'])
-        for lb in labels:
-            if lb == 'default':
-                emit_default = (fmt, adv)
-            else:
-                emit[lb] = letter
-    # the "plain byte" predicate of the emitting loop
-    plain = None
-    for s in fn.nodes():
-        if s.get('k') == 'if':
-            parts = []
-
-            def flat(x):
-                x = strip_casts(x)
-                if x.get('k') == 'bin' and x['op'] == '&&':
-                    flat(x['l'])
-                    flat(x['r'])
-                else:
-                    parts.append(cmp_parts(x))
-            flat(s['c'])
-            if len(parts) >= 2 and all(p is not None for p in parts) and any(p[1] in ('>', '>=') for p in parts):
-                plain = parts
-    if plain is None or count_default is None or emit_default is None:
-        raise AnalysisBroken('TAB5b: tables of print_string_ptr could not be extracted')
-
-    def is_plain(b):
-        for (_e, op, c) in plain:
-            if not {'==': b == c, '!=': b != c, '<': b < c, '<=': b <= c, '>': b > c, '>=': b >= c}[op]:
-                return False
-        return True
-
-    def counted_extra(b):
-        if b in count:
-            return count[b]
-        extra, cond = count_default
-        if cond is None:
-            return extra
-        (_e, op, c) = cond
-        return extra if {'<': b < c, '<=': b <= c, '>': b > c, '>=': b >= c, '==': b == c, '!=': b != c}[op] else 0
-
-    def emitted_extra(b):
-        if is_plain(b):
-            return 0
-        if b in emit:
-            return 1           # backslash + letter
-        fmt, adv = emit_default
-        total = 0
-        for piece in parse_format(fmt):
-            total += piece[1] if piece[0] == 'lit' else max(conv_min_len(piece), 2 if piece[1] in 'xX' else 0)
-        return total            # backslash + sprintf text, minus the byte itself = +len(text)
-    bad = [b for b in range(1, 256) if counted_extra(b) != emitted_extra(b)]
-    R.ob('TAB5b', fn, count_sw, 'for every byte 1..255 the counting pass reserves what the emitting pass writes', not bad,
-         'all 255 values agree' if not bad else 'disagree for bytes %s (counted %s, emitted %s)' % (bad[:6], [counted_extra(b) for b in bad[:6]],
-                                                                                                  [emitted_extra(b) for b in bad[:6]]),
-         key='count-vs-emit')
-    fmt, adv = emit_default
-    total = sum(p[1] if p[0] == 'lit' else conv_min_len(p) for p in parse_format(fmt))
-    R.ob('TAB5b', fn, emit_sw, 'the \\uXXXX arm advances by its text length minus the loop step', adv == total - 1,
-         'sprintf writes %d bytes, cursor += %d, loop adds 1' % (total, adv), key='u-advance')
-    fmts = bytes(fmt).decode('latin1')
-    R.ob('TAB5b', fn, emit_sw, 'control bytes are written as u + four hex digits', fmts in ('u%04x', 'u%04X'), fmts, key='u-format')
-    # every byte below 32, the quote and the backslash are escaped
-    need = set(range(1, 32)) | {34, 92}
-    unesc = [b for b in need if is_plain(b)]
-    R.ob('TAB5b', fn, None, 'quote, backslash and every control byte are escaped', not unesc, 'unescaped: %s' % unesc, key='must-escape')
-    over = [b for b in range(32, 256) if not is_plain(b) and b not in (34, 92)]
-    R.ob('TAB5b', fn, None, 'no other byte is escaped (strings are copied verbatim)', not over, 'also escaped: %s' % over[:8], key='only-escape')
-    # TAB5c: every letter the printer emits is one the parser decodes to the same byte
+                tv.add(tuple(text[i] for i in range(n)))
+        text_of[b] = tv
+    # count vs emit: either the counter holds the extra bytes (text - 1) or the whole text, consistently
+    bad_extra = [b for b in range(1, 256) if len(counted[b]) != 1 or len(text_of[b]) != 1 or None in counted[b] or None in text_of[b] or
+                 next(iter(counted[b])) != len(next(iter(text_of[b]))) - 1]
+    bad_total = [b for b in range(1, 256) if len(counted[b]) != 1 or len(text_of[b]) != 1 or None in counted[b] or None in text_of[b] or
+                 next(iter(counted[b])) != len(next(iter(text_of[b])))]
+    bad = bad_extra if len(bad_extra) <= len(bad_total) else bad_total
+    loop_stmt = ex.heads[counting].stmt
+    R.ob('TAB5b', fn, loop_stmt, 'for every byte 1..255 the counting pass reserves what the emitting pass writes', not bad,
+         'all 255 values agree' if not bad else 'disagree for bytes %s (counted %s, emitted %s)' % (
+             bad[:6], [sorted(counted[b], key=repr) for b in bad[:6]],
+             [sorted((len(t) if t is not None else None) for t in text_of[b]) for b in bad[:6]]), key='count-vs-emit')
+    # the text itself: RFC 8259 section 7
     inv = {}
     for letter, val in RFC8259_ESCAPES.items():
         if isinstance(val, int):
             inv[val] = letter
         elif val == 'self':
-            inv[letter] = letter      # \" \\ \/ stand for themselves
-    wrong = {b: l for b, l in emit.items() if inv.get(b) != l}
-    R.ob('TAB5c', fn, emit_sw, 'every escape letter written is decoded by the parser to the same byte', not wrong,
-         'byte->letter %s' % {k: chr(v) for k, v in sorted(emit.items())} if not wrong else 'mismatch %s' % {k: chr(v) if v else v for k, v in wrong.items()},
+            inv[letter] = letter
+    unesc, over, badu, wrong = [], [], [], {}
+    letters = {}
+    for b in range(1, 256):
+        for t in text_of[b]:
+            if t is None:
+                continue
+            must = b < 32 or b in (34, 92)
+            if t == (b,):
+                if must:
+                    unesc.append(b)
+                continue
+            if not must:
+                over.append(b)
+            if len(t) == 2 and t[0] == 92:
+                letters[b] = t[1]
+                if inv.get(b) != t[1] or b == ord('/') and False:
+                    wrong[b] = t[1]
+            elif len(t) == 6 and t[0] == 92 and t[1] == ord('u'):
+                hx = bytes(t[2:]).decode('latin1')
+                try:
+                    okh = int(hx, 16) == b and all(ch in '0123456789abcdefABCDEF' for ch in hx)
+                except ValueError:
+                    okh = False
+                if not okh:
+                    badu.append((b, hx))
+            else:
+                badu.append((b, bytes(t).decode('latin1')))
+    eloop = ex.heads[emitting].stmt
+    R.ob('TAB5b', fn, eloop, 'bytes written as \\u are u + four hex digits spelling the byte, and the cursor steps over all of them', not badu,
+         'all control bytes without a letter' if not badu else 'byte %d is written as %r' % badu[0], key='u-format')
+    R.ob('TAB5b', fn, None, 'quote, backslash and every control byte are escaped', not unesc, 'unescaped: %s' % unesc, key='must-escape')
+    R.ob('TAB5b', fn, None, 'no other byte is escaped (strings are copied verbatim)', not over, 'also escaped: %s' % over[:8], key='only-escape')
+    R.ob('TAB5c', fn, eloop, 'every escape letter written is decoded by the parser to the same byte', not wrong,
+         'byte->letter %s' % {k: chr(v) for k, v in sorted(letters.items())} if not wrong else 'mismatch %s' % {k: chr(v) for k, v in wrong.items()},
          key='printer-parser')
-    R.floor('TAB5b', 'escape cases in the printer', len(emit), 7)
-
-
 # ---- TAB15 format only affects whitespace ---------------------------------------------------------------------------------------------------
 
 WHITESPACE = {32, 9, 10}
